@@ -28,6 +28,10 @@ type c20Dist struct {
 	N      int    `json:"n"`      // burst size
 	Settle bool   `json:"settle"` // t1: let the disturbance finish before the next keys
 	Order  string `json:"order"`  // t2: main-first | other-first | one-write
+	// settled t1: the next keys are typed at the very moment of the disturbance and reach the
+	// main loop in the same read as the terminal's answer to the disturber's query, in front of
+	// it ("before") or behind it ("after")
+	TA string `json:"ta,omitempty"`
 }
 
 type c20Case struct {
@@ -77,6 +81,7 @@ func c20Gen(r *rand.Rand, tier string, idx int) any {
 		if clean {
 			d.Trig, d.Settle = "t1", true
 			d.Kind = pick(r, []string{"winch", "printf"})
+			d.TA = pick(r, []string{"", "", "before", "after"})
 		}
 		if d.Trig == "t1" {
 			d.At = r.Intn(n + 1)
@@ -266,20 +271,57 @@ func c20Session(env *fw.Env, c *c20Case, disturb bool) *c20Run {
 			wg.Add(1)
 			go func() {
 				defer wg.Done()
-				for _, f := range strings.Split(arg, ",") {
+				group := strings.Split(arg, ",")
+				delivered := false
+				for _, f := range group {
 					var i int
 					fmt.Sscan(f, &i)
 					d := c.Dists[i]
+					if len(group) > 1 {
+						d.TA = "" // keys with the answer only for a disturbance that is alone at its wait
+					}
 					// the main loop must be inside its read before the disturbance starts
 					for k := 0; k < 500 && !s.InRead(); k++ {
 						time.Sleep(time.Millisecond)
 					}
 					dsr0 := dsrCount(env.T)
+					ta := ""
+					if d.TA != "" {
+						order := d.TA
+						env.T.Lock()
+						env.T.DSRHook = func(n int, reply []byte) bool {
+							env.T.DSRHook = nil
+							sts := s.TakeSteps(1)
+							if len(sts) == 0 {
+								return false
+							}
+							ta = "|keys-" + order + "-the-answer"
+							delivered = true
+							if order == "before" {
+								env.T.M.Write(append([]byte(sts[0].W), reply...))
+							} else {
+								env.T.M.Write(append(append([]byte{}, reply...), sts[0].W...))
+							}
+							return true
+						}
+						env.T.Unlock()
+					}
 					fire(s, d)
 					settle(d, dsr0)
+					env.T.Lock()
+					env.T.DSRHook = nil
+					tag := ta
+					env.T.Unlock()
 					mu.Lock()
-					out.realised = append(out.realised, fmt.Sprintf("t1|%s|settled|%s-wait", d.Kind, kind))
+					out.realised = append(out.realised, fmt.Sprintf("t1|%s|settled|%s-wait%s", d.Kind, kind, tag))
 					mu.Unlock()
+				}
+				if delivered {
+					// the keys typed with the answer are being used: wait until the main loop is
+					// back in its read before the next ones are typed
+					for k := 0; k < 2000 && !(s.InRead() && s.Idle()); k++ {
+						time.Sleep(time.Millisecond)
+					}
 				}
 				for _, st := range s.TakeSteps(1) {
 					env.T.M.Write([]byte(st.W))
@@ -316,6 +358,13 @@ func c20Session(env *fw.Env, c *c20Case, disturb bool) *c20Run {
 			return []sess.Step{{Do: "settled", Arg: strings.Join(settled, ","), Tag: "dist"}}
 		}
 		return out
+	}
+	for i, ds := range t1 {
+		if len(t1[i+1]) > 0 || i >= len(c.Tokens) {
+			for _, di := range ds {
+				c.Dists[di].TA = "" // the keys typed with the answer must be followed by plain keys
+			}
+		}
 	}
 	for i, tok := range c.Tokens {
 		st := sess.Step{W: tok, Tag: "tok"}
@@ -570,7 +619,7 @@ func init() {
 		Run: c20RunCase,
 		// Rare, non-reproducible wrong final frames are a consequence of the known unsynchronised
 		// concurrent redisplay (about 1 in 600 judged frames on the unchanged tree, calibrated over
-		// 7 200 cases). A rate above 3 % of the judged frames is something else: a violation.
+		// 7 200 cases). A rate above 3 % of the judged frames (at least 100 judged, at least 4 wrong: the quick tier judges about 60 and is below that) is something else: a violation.
 		Post: func(a *fw.Agg) {
 			n := 0
 			for sig, f := range a.Findings {
@@ -579,7 +628,7 @@ func init() {
 				}
 			}
 			judged := a.Count["final_frames_judged_overlapping-schedule"]
-			if judged >= 30 && n*100 > judged*3 {
+			if judged >= 100 && n >= 4 && n*100 > judged*3 {
 				a.Viol(-1, "final-frames-wrong-above-the-calibrated-rate", fmt.Sprintf("%d of %d judged final frames are wrong (calibrated bound 3 %%)", n, judged))
 			}
 		},
